@@ -11,6 +11,12 @@ pub fn judge(w: &Worker, scen: &Scenario, ex: &Exec) -> Judgement {
         return simple_judge(vec![], ex, false);
     }
     let mut v = judge_exit0_tree(w, scen, ex, &exp, Level::Content);
+    if let Some(why) = &exp.must_fail {
+        // a selected source that cannot be mapped (e.g. a link that cannot be resolved under -L) leaves a gap
+        if exit0(ex) {
+            v.push(format!("exit 0 although {}", why));
+        }
+    }
     v.extend(model::untouched(&exp, &ex.before, &ex.snap));
     v.truncate(8);
     simple_judge(v, ex, exit0(ex))
@@ -69,7 +75,7 @@ pub fn scenarios(thorough: bool) -> Vec<Scenario> {
     }
     let dest_states = ["absent", "file", "emptydir", "earlier", "earlier-kinds", "bystanders", "linktodir"];
     let spellings = ["plain", "slash-src", "slash-dst", "dot", "abs"];
-    let flagsets = ["-", "-T", "--target-directory"];
+    let flagsets = ["-", "-T", "--target-directory", "-L"];
     for d in drivers() {
         for sel in &sels {
             for ds in dest_states {
@@ -171,6 +177,7 @@ pub fn scenarios(thorough: bool) -> Vec<Scenario> {
                         let dst = spell("dst", true, false);
                         match fl {
                             "-T" => args.push("-T".into()),
+                            "-L" => args.push("-L".into()),
                             "--target-directory" => {
                                 args.push("--target-directory".into());
                                 args.push(dst.clone());
@@ -242,7 +249,7 @@ pub fn scenarios(thorough: bool) -> Vec<Scenario> {
 pub fn run(ctx: &Ctx) -> Report {
     let mut rep = Report::new(
         "model_checking",
-        "source selections (single components and pairs: files with plain / space / unicode / hidden names, directories with nested directories, non-UTF-8 names, relative / absolute / dangling / upward links, a link as source) x destination state {absent, file, empty dir, dir holding an earlier copy with changed content and link texts, dir with bystanders, link to a dir} x spelling {plain, trailing slash on source / destination, ./ prefix, absolute} x {-, -T, --target-directory} x both drivers, plus sources selected by --glob patterns and relative paths from a sub-directory; executed by the real binary under P0 and P1; oracle: reference model of cp's mapping rule: exit 0 => the whole sandbox equals the expected tree (kinds, bytes, link texts, nothing unexpected anywhere), and whatever the exit status every entry that is no mapped target is identical before/after; non-trivial = exited 0 on an invocation the model does not classify as rejected, per distinct (scenario, trace)",
+        "source selections (single components and pairs: files with plain / space / unicode / hidden names, directories with nested directories, non-UTF-8 names, relative / absolute / dangling / upward links, a link as source) x destination state {absent, file, empty dir, dir holding an earlier copy with changed content and link texts, dir with bystanders, link to a dir} x spelling {plain, trailing slash on source / destination, ./ prefix, absolute} x {-, -T, --target-directory, -L} x both drivers, plus sources selected by --glob patterns and relative paths from a sub-directory; executed by the real binary under P0 and P1; oracle: reference model of cp's mapping rule: exit 0 => the whole sandbox equals the expected tree (kinds, bytes, link texts, nothing unexpected anywhere), and whatever the exit status every entry that is no mapped target is identical before/after; non-trivial = exited 0 on an invocation the model does not classify as rejected, per distinct (scenario, trace)",
     );
     let j: Judge = &judge;
     let sc = scenarios(!ctx.quick());
